@@ -144,3 +144,57 @@ Example ex_history_counters :
   let s := fold_left (fun s op => fst (hstep numQ B_hist [] s op)) (firstn 5 ops_hist) (mkCS stats0 []) in
   st_total (cs_stats s) = 4 /\ st_successful (cs_stats s) = 2 /\ st_attempts (cs_stats s) STRICT = 3 /\ lookup_co (cs_reg s) 0 = Some 9.
 Proof. vm_compute. repeat split. Qed.
+
+(* ---- the healing loop ------------------------------------------------------- *)
+(* generations 0..2 are text 7 (nothing parses), generation 3 is text 0 of [tab_hist]-like
+   clean JSON (strips to itself, loads to value 0, validates to instance 0).
+   confidence_decay = 2/5, max_retries = 3: healed on attempt 3, where 1 - 3 * 2/5 < 0:
+   the reported confidence is 0 (not negative), outcome HEALED, four folds counted. *)
+Definition tab_heal : otab :=
+  mkOTab [[0; 0]; [7; 7]] [[0; 0; 0]; [7; 1; 0]]
+         (map (fun k => [Z.of_nat k; 7; 0]) (seq 0 5)) (subs_id 7) [] [[0; 0; 0; 0]] [] [] 0.
+Definition O_heal := oracles_of tab_heal.
+Definition gen_heal (k : nat) : Z := if (k <? 3)%nat then 7 else 0.
+
+Example ex_heal_late :
+  exists h st ls,
+    heal numQ O_heal cfg [] gen_heal 3 (2 # 5) stats0 = (Ret h, st, ls) /\
+    h_outcome h = HHealed /\ h_tagged h = false /\ (h_final h == 0)%Q /\
+    (exists r, h_folded h = Some r /\ e_valid r = true /\ e_structure r = Some 0 /\
+               e_strategy r = Some STRICT /\ (e_conf r == 0)%Q) /\
+    map (fun a : rattempt numQ => (ra_num a, ra_raw a, ra_success a, q_obs (ra_conf a))) (h_attempts h) =
+      [(0%nat, 7, false, [0; 1]); (1%nat, 7, false, [0; 1]); (2%nat, 7, false, [0; 1]); (3%nat, 0, true, [0; 1])] /\
+    st_total st = 4 /\ st_successful st = 1 /\ length ls = 4%nat.
+Proof.
+  do 3 eexists. split; [vm_compute; reflexivity|]. vm_compute.
+  repeat split. eexists. repeat split.
+Qed.
+
+(* healed on attempt 1 with decay 1/10: min(1, 1 - 1/10) = 9/10 although STRICT succeeded
+   (so "confidence 1 iff STRICT" of a bare fold becomes "1 only for STRICT" through the loop);
+   first try: confidence 1, VALID_FIRST_TRY; budget exhausted: DEGRADED, no fold, tagged *)
+Example ex_heal_outcomes :
+  let f := fun gen mr => match heal numQ O_heal cfg [] gen mr (1 # 10) stats0 with
+                         | (Ret h, st, _) => (h_outcome h, h_tagged h, q_obs (h_final h),
+                                              match h_folded h with Some r => Some (e_strategy r, q_obs (e_conf r)) | None => None end,
+                                              length (h_attempts h), st_total st)
+                         | _ => (HDegraded, false, [], None, 99%nat, -1)
+                         end in
+  f (fun k => if (k <? 1)%nat then 7 else 0) 3 = (HHealed, false, [9; 10], Some (Some STRICT, [9; 10]), 2%nat, 2) /\
+  f (fun _ => 0) 3 = (HValidFirstTry, false, [1; 1], Some (Some STRICT, [1; 1]), 1%nat, 1) /\
+  f (fun _ => 7) 2 = (HDegraded, true, [0; 1], None, 3%nat, 3) /\
+  f (fun _ => 0) (-1) = (HDegraded, true, [0; 1], None, 0%nat, 0).
+Proof. vm_compute. repeat split. Qed.
+
+(* the hypothesis of c11_heal_total is satisfiable (no callbacks configured) *)
+Example ex_heal_callbacks_return : forall k, callbacks_return O_heal cfg (gen_heal k).
+Proof. intros k. split; intros H; discriminate H. Qed.
+
+(* a heal inside a history shares the counters with the other calls and, like them,
+   returns what it returns on a fresh Chaperone *)
+Example ex_heal_in_history :
+  let ops := [HFoldEnhanced 7 0 []; HHeal gen_heal 0 3 1 (-2); HFold 0 0 []] in
+  run_hist numQ (base_of [5; 10; 0] tab_heal) [] (mkCS stats0 []) ops =
+  run_fresh numQ (base_of [5; 10; 0] tab_heal) [] [] ops /\
+  st_total (cs_stats (fold_left (fun s op => fst (hstep numQ (base_of [5; 10; 0] tab_heal) [] s op)) ops (mkCS stats0 []))) = 6.
+Proof. vm_compute. split; reflexivity. Qed.
